@@ -47,6 +47,7 @@ from stone.backends.python_helpers import (
     fmt_class,
     fmt_func,
     fmt_namespace,
+    fmt_docstring,
     fmt_obj,
     fmt_var,
     generate_imports_for_referenced_namespaces,
@@ -85,6 +86,11 @@ class PythonTypesBackend(CodeBackend):
     cur_namespace = None  # type: typing.Optional[ApiNamespace]
 
     preserve_aliases = True
+
+    @classmethod
+    def process_doc(cls, doc, handler):
+        # Docs end up in docstrings: keep backslashes and triple quotes literal.
+        return fmt_docstring(super().process_doc(doc, handler))
 
     def generate(self, api):
         """
